@@ -43,4 +43,58 @@ def sandboxPtrCast (k : Nat) : PtrSrc → Nat
   | .tainted a => a
   | .tvol cell rep => ptrLoad k cell rep
 
+/-! ## Casts that involve a floating-point type
+
+`static_cast` between an integer and a binary floating-point type is a *value* conversion: an integer becomes
+the nearest representable value (round to nearest, ties to even -- the only rounding the harness runs under), a
+floating-point value becomes the integer obtained by discarding the fraction (undefined when that is out of
+range).  Values are exact dyadic rationals `num / 2^k`; exponent range is not modelled (the check stays inside
+the normal range of every format). -/
+
+/-- number of significant bits of `n` (0 for 0) -/
+def bitLen (n : Nat) : Nat := if n = 0 then 0 else Nat.log2 n + 1
+
+/-- `n` rounded to `p` significant bits, ties to even: ONE rounding of the exact value -/
+def roundSig (p n : Nat) : Nat :=
+  if bitLen n ≤ p then n else
+    let sh := bitLen n - p
+    let q := n / 2 ^ sh
+    let r := n % 2 ^ sh
+    let half := 2 ^ (sh - 1)
+    (if r > half ∨ (r = half ∧ q % 2 = 1) then q + 1 else q) * 2 ^ sh
+
+inductive FloatTy | float | double | ldouble
+deriving DecidableEq, Repr
+
+/-- significand precision: IEEE binary32, binary64, x87 extended -/
+def FloatTy.prec : FloatTy → Nat
+  | .float => 24 | .double => 53 | .ldouble => 64
+
+/-- `static_cast<F>(v)` for an integer `v`: an integer-valued result -/
+def intToFloat (f : FloatTy) (v : Int) : Int :=
+  if v < 0 then -(roundSig f.prec v.natAbs : Int) else (roundSig f.prec v.natAbs : Int)
+
+/-- `sandbox_static_cast<F>` of an integer source -/
+def sandboxStaticCastIF (abi : Abi) (to : FloatTy) (fr : BaseTy) (src : CastSrc) : Option Int :=
+  (srcToTainted abi fr src).map (intToFloat to)
+
+/-- an exact floating-point value `num / 2^k` -/
+structure Dy where
+  num : Int
+  k : Nat
+deriving Repr
+
+/-- `static_cast<F>(x)` for a floating-point `x` (a narrowing rounds once; a widening is exact) -/
+def floatToFloat (to : FloatTy) (x : Dy) : Dy := ⟨intToFloat to x.num, x.k⟩
+
+/-- the fraction discarded (toward zero) -/
+def Dy.trunc (x : Dy) : Int :=
+  if x.num < 0 then -((x.num.natAbs / 2 ^ x.k : Nat) : Int) else ((x.num.natAbs / 2 ^ x.k : Nat) : Int)
+
+/-- `static_cast<I>(x)` for a floating-point `x`: the fraction is discarded; `none` = undefined behaviour (out of
+range of `I`).  `bool` is the one exception: any non-zero value is `true`. -/
+def floatToInt (to : BaseTy) (x : Dy) : Option Int :=
+  if to = .bool then some (if x.num = 0 then 0 else 1) else
+  if to.app.inRange x.trunc then some x.trunc else none
+
 end Rlbox
